@@ -167,9 +167,29 @@ func URIHdrsEq(
 	if err1 != ErrHdrOk && err1 != ErrHdrEOH {
 		return false, err1
 	}
+	if hlst1.More() {
+		// more headers than the temporary array can hold: parse again into
+		// a big enough one (else the extra headers would not be compared)
+		n := hlst1.N
+		hlst1 = URIHdrsLst{}
+		hlst1.Init(make([]URIHdr, n))
+		_, _, err1 = ParseAllURIHdrs(buf1, offs1, &hlst1, flags)
+		if err1 != ErrHdrOk && err1 != ErrHdrEOH {
+			return false, err1
+		}
+	}
 	_, _, err2 := ParseAllURIHdrs(buf2, offs2, &hlst2, flags)
 	if err2 != ErrHdrOk && err2 != ErrHdrEOH {
 		return false, err2
+	}
+	if hlst2.More() {
+		n := hlst2.N
+		hlst2 = URIHdrsLst{}
+		hlst2.Init(make([]URIHdr, n))
+		_, _, err2 = ParseAllURIHdrs(buf2, offs2, &hlst2, flags)
+		if err2 != ErrHdrOk && err2 != ErrHdrEOH {
+			return false, err2
+		}
 	}
 	return URIHdrsLstEq(&hlst1, buf1, &hlst2, buf2), ErrHdrOk
 }
